@@ -227,3 +227,144 @@ func cmdC08(args []string) int {
 	os.WriteFile(*statsOut, sb, 0644)
 	return 0
 }
+
+// ---------------------------------------------------------------------------------- real extension types
+//
+// c08-real: seeded random profile / certificate lists (length up to 12) built from the REAL v1 extension types with
+// real contents, some content-less (a profile entry that must be overridden). Each extension is projected to
+// [oid |-> kind number, body |-> identity of its JSON form | "none"], so that MergeTrace.tla can judge the real call.
+
+func c08RealPool() []config.ExtensionConfig {
+	pl := 2
+	_ = pl
+	return []config.ExtensionConfig{
+		v1.SubjectKeyIdentifier{Content: "hash"}, v1.SubjectKeyIdentifier{},
+		v1.KeyUsage{Critical: true, Content: []string{"digitalSignature"}}, v1.KeyUsage{Content: []string{"crlSign", "keyCertSign"}}, v1.KeyUsage{},
+		v1.SubjectAltName{Content: []v1.SubjAltNameComponent{{Type: "dns", Name: "a.example"}}}, v1.SubjectAltName{Content: []v1.SubjAltNameComponent{{Type: "mail", Name: "a@b.c"}}}, v1.SubjectAltName{},
+		v1.BasicConstraints{Critical: true, Content: &v1.BasicConstraintsObj{Ca: true, PathLen: 1}}, v1.BasicConstraints{Content: &v1.BasicConstraintsObj{}}, v1.BasicConstraints{},
+		v1.CertPolicies{Content: []v1.CertPolicy{{Oid: "1.2.3.4"}}}, v1.CertPolicies{},
+		v1.AuthInfoAccess{Content: []v1.SingleAuthInfo{{Ocsp: "http://o.example"}}}, v1.AuthInfoAccess{},
+		v1.AuthKeyId{Content: v1.AuthKeyIdContent{Id: "hash"}}, v1.AuthKeyId{},
+		v1.ExtKeyUsage{Content: []string{"serverAuth"}}, v1.ExtKeyUsage{Content: []string{"clientAuth", "1.2.3.4"}}, v1.ExtKeyUsage{},
+		v1.OcspNoCheckExtension{}, v1.OcspNoCheckExtension{Critical: true},
+		v1.CustomExtension{OidStr: "1.2.3.4.1", Raw: "!binary:AQ=="}, v1.CustomExtension{OidStr: "1.2.3.4.1", Raw: "!binary:Ag=="}, v1.CustomExtension{OidStr: "1.2.3.4.2", Raw: "!null"},
+		v1.CustomExtension{OidStr: "1.2.3.4.2"},
+		v1.KeyUsage{Raw: "!binary:AwIHgA=="}, v1.SubjectAltName{Raw: "!empty"},
+	}
+}
+
+func init() { commands["c08-real"] = cmdC08Real }
+
+func cmdC08Real(args []string) int {
+	fs := flag.NewFlagSet("c08-real", flag.ExitOnError)
+	count := fs.Int("count", 1000, "")
+	seed := fs.Uint64("seed", 1, "")
+	out := fs.String("out", "obs.ndjson", "")
+	statsOut := fs.String("stats", "stats.json", "")
+	fs.Parse(args)
+	rng := util.NewRng(*seed)
+	pool := c08RealPool()
+	oidNo := map[string]int{}
+	bodyNo := map[string]string{}
+	abs := func(e config.ExtensionConfig) c08Ext {
+		o := e.Oid().String()
+		if _, ok := oidNo[o]; !ok {
+			oidNo[o] = len(oidNo) + 1
+		}
+		b, _ := json.Marshal(e)
+		// content-less = the builder says an override is needed (ocspNoCheck never is)
+		bld, err := e.Builder()
+		if _, need := bld.(config.OverrideNeededBuilder); need && err == nil {
+			return c08Ext{oidNo[o], "none"}
+		}
+		k := o + string(b)
+		if _, ok := bodyNo[k]; !ok {
+			bodyNo[k] = fmt.Sprintf("b%d", len(bodyNo)+1)
+		}
+		return c08Ext{oidNo[o], bodyNo[k]}
+	}
+	// content-less entries are drawn less often, so that a good share of the merged lists can be generated
+	var full, bare []config.ExtensionConfig
+	for _, e := range pool {
+		if abs(e).Body == "none" {
+			bare = append(bare, e)
+		} else {
+			full = append(full, e)
+		}
+	}
+	pick := func() config.ExtensionConfig {
+		if rng.Intn(8) == 0 {
+			return bare[rng.Intn(len(bare))]
+		}
+		return full[rng.Intn(len(full))]
+	}
+	w, _ := util.NewNdjsonWriter(*out)
+	genFail, panics := 0, 0
+	for id := 1; id <= *count; id++ {
+		np, nc := rng.Intn(7), rng.Intn(13)
+		prof := config.CertificateProfile{Name: "p"}
+		var P []c08PEntry
+		for i := 0; i < np; i++ {
+			e := pick()
+			opt, ovr := rng.Intn(3) == 0, rng.Intn(3) == 0
+			prof.Extensions = append(prof.Extensions, config.ProfileExtension{ExtensionConfig: e, ExtensionProfile: config.ExtensionProfile{Optional: opt, Override: ovr}})
+			P = append(P, c08PEntry{abs(e), opt, ovr})
+		}
+		subj, _ := config.ParseRDNSequence("CN=merge real")
+		content := config.CertificateContent{Alias: "m", Profile: "p", Subject: subj, KeyAlgorithm: cert.P256, SignatureAlgorithm: cert.ECDSAwithSHA256}
+		content.Validity.From, content.Validity.Until, content.Validity.IsSet, content.Validity.IsStatic = util.FixedFrom, util.FixedUntil, true, true
+		var C []c08Ext
+		for i := 0; i < nc; i++ {
+			e := pick()
+			content.Extensions = append(content.Extensions, e)
+			C = append(C, abs(e))
+		}
+		pb, _ := json.Marshal(prof)
+		cb, _ := json.Marshal(content)
+		o := &c08Obs{Id: id, P: P, C: C, Out: []c08Ext{}, CertExts: []c08Ext{}}
+		if o.P == nil {
+			o.P = []c08PEntry{}
+		}
+		if o.C == nil {
+			o.C = []c08Ext{}
+		}
+		pan, msg := util.Guard(func() {
+			merged, err := config.Merge(prof, content)
+			if err != nil {
+				o.MergeErr = err.Error()
+				return
+			}
+			for _, e := range merged.Extensions {
+				o.Out = append(o.Out, abs(e))
+			}
+			pb2, _ := json.Marshal(prof)
+			cb2, _ := json.Marshal(content)
+			o.Unchanged = string(pb) == string(pb2) && string(cb) == string(cb2)
+			ctx, err := generator.BuildCertBody(*merged, nil, nil)
+			if err != nil {
+				o.GenFailed = true
+				return
+			}
+			crt, err := generator.SignCertBody(ctx, *merged)
+			if err != nil {
+				o.GenFailed = true
+				return
+			}
+			for _, x := range crt.TBSCertificate.Extensions {
+				o.CertExts = append(o.CertExts, c08Ext{oidNo[x.Id.String()], "?"})
+			}
+		})
+		if pan {
+			o.Panic = msg
+			panics++
+		}
+		if o.GenFailed {
+			genFail++
+		}
+		w.Write(o)
+	}
+	w.Close()
+	sb, _ := json.Marshal(map[string]any{"evaluations": *count, "generation_failed": genFail, "panics": panics, "kinds": len(oidNo), "distinct_bodies": len(bodyNo)})
+	os.WriteFile(*statsOut, sb, 0644)
+	return 0
+}
